@@ -167,6 +167,41 @@ def run(tier):
         exp = "lint=%s value=%s" % ("true" if lint else "false", printed)
         if mm != exp and c["pos"] != "condition":
             mism += 1; ck.violation("tie-broken:literal-model", "model says '%s', implementation '%s' for %s" % (mm, exp, desc), src)
+    # several literals on ONE line (array literals, operands of one operator, arguments of one call): each denotes its
+    # own value whatever stands before it on the line (a digit buffer that is not cleared between the tokens of a line
+    # glues `0x48, 0x65` into 0x4865)
+    byt = collections.defaultdict(list)
+    for c in cases:
+        if c["m"] < (1 << 128) and not c["neg"] and tmin(c["t"]) <= c["v"] <= tmax(c["t"]) and c["t"] not in ("bool", "char8"): byt[c["t"]].append(c)
+    prng = random.Random(ck.seed + 99)
+    psrcs, pexp = [], {}
+    for t, cs in sorted(byt.items()):
+        for j in range(12 if tier == "quick" else 300):
+            k = prng.randint(2, 4)
+            pick = [prng.choice(cs) for _ in range(k)]
+            cid = "pl%s.%d" % (t, j)
+            form = j % 3
+            if form == 0:
+                body = "\tvar a: [%d]%s = [%s];\n\tprint!(%s, \"\\n\");\n" % (k, t, ", ".join(c["text"] for c in pick), ", \" \", ".join("a[%d]" % i for i in range(k)))
+            elif form == 1:
+                body = "\tprint!(%s, \"\\n\");\n" % ", \" \", ".join("id(%s)" % c["text"] for c in pick)
+            else:
+                body = "".join("\tvar v%d: %s = %s;" % (i, t, c["text"]) for i, c in enumerate(pick)).replace(";\tvar", "; var") + "\n\tprint!(%s, \"\\n\");\n" % ", \" \", ".join("v%d" % i for i in range(k))
+            psrcs.append((cid, "fn id(x: %s) -> %s\n{\n\treturn: x\n}\nfn main() -> u8\n{\n%s\treturn: 0\n}\n" % (t, t, body)))
+            pexp[cid] = " ".join(str(wrap(t, c["v"])) for c in pick)
+    pimpl = C.run_harness("exec", psrcs, ck.work + "/line", timeout=1800)
+    pm = 0
+    for cid, src in psrcs:
+        f = pimpl.get(cid, ["missing"])
+        if not f[0].startswith("ok"):
+            if f[0].startswith("err codes="): pm += 1; mism += 1; ck.violation("representable-rejected:same-line", "in-range literals on one line are rejected: " + f[0], src)
+            else: ck.violation(C.failure_key(f[0]), "compiler failed: " + f[0][:160], src)
+            continue
+        out = C.unesc(f[1].split(" out=", 1)[1].split(" stderr=")[0]).decode(errors="replace").strip() if " out=" in f[1] else "?"
+        if out != pexp[cid] or "1142" in f[0]:
+            pm += 1; mism += 1
+            ck.violation("wrong-value:same-line", "literals on one line print `%s`%s, they denote `%s`" % (out, " (with L1142)" if "1142" in f[0] else "", pexp[cid]), src)
+    ck.log("literals sharing a line: %d programs, %d problems" % (len(psrcs), pm))
     ck.log("integers: %d literals %s, %d problems" % (len(cases), dict(stats), mism))
     # characters and strings
     ssrcs, sexp = [], {}
